@@ -57,6 +57,9 @@ func injectFaults(t *kernel.Tape, p *Plan, kinds []int, two bool) []lnode {
 			l.n.FailKind = 0
 		}
 		l.n.Early = false // the failure is raised when the node function is called
+		if l.n.FailKind == 2 && t.PlanBool(50) {
+			l.n.FailEOF = true // the error item wraps io.EOF (it is still an error item, not the end)
+		}
 		if l.n.FailKind == 1 && l.n.UseState && t.PlanBool(60) {
 			l.n.FailInState = true // the panic is raised inside the ProcessState callback
 		}
@@ -337,6 +340,12 @@ func runC13(t *kernel.Tape, opt core.Opts) *core.Outcome {
 	if scenario == 6 || scenario == 7 {
 		cancelAfter = t.Plan(12)
 		call.Ctx, cancel = context.WithCancel(context.Background())
+		if t.PlanBool(50) {
+			// cancelled with a cause of the caller's own: the run error must still match context.Canceled
+			var cc context.CancelCauseFunc
+			call.Ctx, cc = context.WithCancelCause(context.Background())
+			cancel = func() { cc(errors.New("the operator gave up")) }
+		}
 	}
 	o.Sample = p.Render() + fmt.Sprintf(" call=%s scenario=%d cancelAfter=%d", paradigmNames[call.Paradigm], scenario, cancelAfter)
 	o.PlanHash = planHash(o.Sample)
@@ -562,7 +571,7 @@ func init() {
 	})
 	core.Register(&core.Profile{
 		ID: "C13", Engine: "graphsim", Quick: 2500, Thorough: 60000, ThoroughSeeds: 3, Run: runC13,
-		Rule: "each run draws a plan in any mode and one scenario: 1-2 failing nodes at any nesting depth (error sentinel, panic, error item mid-stream; possibly in the same superstep), context cancellation at a drawn scheduler step, or a cyclic plan running into its step limit; one call in any paradigm; oracle: errors.As recovers the injected sentinel / the panic value is in the error, the message names the failing node path, errors.Is matches ErrExceedMaxSteps and context.Canceled, no panic escapes, no hang; a panicking node that uses the state may panic inside the ProcessState callback",
+		Rule: "each run draws a plan in any mode and one scenario: 1-2 failing nodes at any nesting depth (error sentinel, panic, error item mid-stream; possibly in the same superstep), context cancellation at a drawn scheduler step, or a cyclic plan running into its step limit; one call in any paradigm; oracle: errors.As recovers the injected sentinel / the panic value is in the error, the message names the failing node path, errors.Is matches ErrExceedMaxSteps and context.Canceled, no panic escapes, no hang; a panicking node that uses the state may panic inside the ProcessState callback; half of the mid-stream error items wrap io.EOF; half of the cancellations carry a cause of the caller's own",
 		Real: graphReal, Stub: graphStub,
 		Faults: []string{"node error", "node panic", "several nodes failing in one step", "error item mid-stream", "context cancellation", "step limit"},
 	})
